@@ -155,10 +155,10 @@ def runHistory (s : DriverState K R) : List (Call K R) → DriverState K R × Li
     let rest := runHistory r.1 cs
     (rest.1, r.2 :: rest.2)
 
-/-- the states after each call -/
-def states (s : DriverState K R) : List (Call K R) → List (DriverState K R)
+/-- the full trace of a history: (state before, call, state after, output) for every call -/
+def trace (s : DriverState K R) : List (Call K R) → List (DriverState K R × Call K R × DriverState K R × Out K)
   | [] => []
-  | c :: cs => (stepCall s c).1 :: states (stepCall s c).1 cs
+  | c :: cs => (s, c, (stepCall s c).1, (stepCall s c).2) :: trace (stepCall s c).1 cs
 
 end model
 end Slu.History
